@@ -7,7 +7,7 @@ import Munge.Props.C04
 import Munge.Props.C06
 /- Helper lemmas about the credential model (group B): the decoder inverts the encoder, and the
    model's byte-level helpers agree with the independent reference `Munge.SpecV3`. -/
-namespace Munge.Cred
+namespace Munge.Cred.B
 open Munge.Gen.Dec Munge.C
 
 /-! ### bytes -/
@@ -704,4 +704,4 @@ theorem encF_WF (P : Prims) (L : PrimLaws P) (cf : Conf) (env : Env) (m : Msg) (
       omega
 end
 
-end Munge.Cred
+end Munge.Cred.B
